@@ -49,6 +49,10 @@ var reLocalMethod = regexp.MustCompile(`^\(\s*(?:(\w+)\s+)?(\*?)(\w+(?:\[[\w, ]+
 // resolveKey turns a contract key as written into the types.Func full name.
 func resolveKey(key, pkgPath string) string {
 	key = strings.TrimSpace(key)
+	// "name@variant": a second contract for the same function, verified as a unit of its own (never used at call sites)
+	if i := strings.LastIndex(key, "@"); i > 0 && !strings.Contains(key[i:], "/") && !strings.HasPrefix(key[i:], "@/") {
+		return resolveKey(key[:i], pkgPath) + key[i:]
+	}
 	key = strings.ReplaceAll(key, "@/", "tunnox-core/internal/")
 	if pkgPath == "" {
 		return key
@@ -291,6 +295,14 @@ func (u *Unit) dispatchCall(st *State, call *ast.CallExpr, fn *types.Func, recv 
 // callContract: assert pre, havoc modifies, assume post.
 func (u *Unit) callContract(st *State, c *Contract, fn *types.Func, recv *Val, args []Val, pos token.Pos, label string) Val {
 	sig := fn.Type().(*types.Signature)
+	if rc := u.root().contract; rc != nil && rc.Flags["interference"] != "" {
+		// `flag interference g1 g2`: between any two of this function's operations other callers may have acted on the
+		// shared state these ghosts describe - it is arbitrary again before every call made through a contract
+		ienv := &specEnv{u: u, st: st, vars: map[string]Val{}, pkg: u.pkg.Types}
+		for _, g := range strings.Fields(rc.Flags["interference"]) {
+			u.havocNamed(st, ienv, g)
+		}
+	}
 	env := u.contractEnv(st, st, c, fn, sig, recv, args) // in the pre-state old(e) is e
 	short := shortFuncName(funcKey(fn))
 	// lets (pre-state)
